@@ -624,7 +624,13 @@ func showInJS(env *env, out io.Writer, value any) error {
 			keyPairs[i].val = iter.Value().Interface()
 		}
 		sort.Slice(keyPairs, func(i, j int) bool {
-			return keyPairs[i].key < keyPairs[j].key
+			if keyPairs[i].key != keyPairs[j].key {
+				return keyPairs[i].key < keyPairs[j].key
+			}
+			// Different keys of the map are shown with the same key: sort
+			// them by the shown value, as the iteration order of a map, and
+			// then their order in keyPairs, changes between runs.
+			return shownLess(env, keyPairs[i].val, keyPairs[j].val, showInJS)
 		})
 		_, err := w.WriteString("{")
 		for i, keyPair := range keyPairs {
@@ -830,7 +836,13 @@ func showInJSON(env *env, out io.Writer, value any) error {
 			keyPairs[i].val = iter.Value().Interface()
 		}
 		sort.Slice(keyPairs, func(i, j int) bool {
-			return keyPairs[i].key < keyPairs[j].key
+			if keyPairs[i].key != keyPairs[j].key {
+				return keyPairs[i].key < keyPairs[j].key
+			}
+			// Different keys of the map are shown with the same key: sort
+			// them by the shown value, as the iteration order of a map, and
+			// then their order in keyPairs, changes between runs.
+			return shownLess(env, keyPairs[i].val, keyPairs[j].val, showInJSON)
 		})
 		_, err := w.WriteString("{")
 		for i, keyPair := range keyPairs {
@@ -1048,6 +1060,14 @@ func showQuoted(env *env, w strWriter, value any, show func(*env, io.Writer, any
 		_, err = w.WriteString(`"`)
 	}
 	return err
+}
+
+// shownLess reports whether a, as show shows it, sorts before b.
+func shownLess(env *env, a, b any, show func(*env, io.Writer, any) error) bool {
+	var sa, sb strings.Builder
+	_ = show(env, &sa, a)
+	_ = show(env, &sb, b)
+	return sa.String() < sb.String()
 }
 
 // isEmptyValue reports whether v is an empty value for JS and JSON.
